@@ -214,9 +214,18 @@ inductive HookRes
   | ok | raisesResp (o : Out) | raises
 deriving Inhabited
 
+/-- what a hook does to the hook list of the event being emitted (before anything else) -/
+inductive HookEdit
+  | none
+  | removeSelf            -- `app.remove_hook(name, this_hook)`: a one-shot hook
+  | addNew                -- `app.add_hook(name, fresh_hook)`: registers another hook of the same event
+  | removeOther (j : Nat) -- `app.remove_hook(name, hook_j)`: removes the hook registered as number `j`
+  deriving Repr, DecidableEq, Inhabited
+
 structure Hook where
   effs : List Eff
   res : HookRes
+  edit : HookEdit := .none
 deriving Inhabited
 
 inductive Outcome
@@ -259,6 +268,8 @@ structure ReqSlot where
   id : Nat
   urlRepr : Str
   json : Bool
+  ext : List (Str × Str) := []   -- `ombott.request.ext.<name>` items and plain items application code
+                                 -- stored through `request.<name> = v` / `request[key] = v`
   deriving Repr, DecidableEq
 
 /-- the per-thread request and response objects of one application -/
@@ -352,9 +363,11 @@ def settle : Flow → List Event × Out
   | .resp o => ([], o)
   | .exc => ([.stderr], mkError 500 "Internal Server Error".toList)
 
-/-- `request.__init__(environ)`: the reused request object is pointed at the new environ -/
+/-- `request.__init__(environ)`: the reused request object is pointed at the new environ.
+Extension attributes (`BaseRequest.__setattr__` files `request.x = v` under
+`environ['ombott.request.ext.x']`) and items live in that environ, so the new one has none. -/
 def Slots.initRequest (s : Slots) (r : Req) : Slots :=
-  { s with req := some { id := r.id, urlRepr := r.urlRepr, json := r.json } }
+  { s with req := some { id := r.id, urlRepr := r.urlRepr, json := r.json, ext := [] } }
 
 /-- `response.__init__()`: `BaseResponse.__init__` assigns `_status_line`, `_status_code`
 (through the `status` setter with the default), `_cookies = None`, `_headers = {}`, `body = ''` —
@@ -588,6 +601,7 @@ structure Result where
   closer : Option Nat
   fwCL : Option Nat
   slots : Slots
+  escaped : Bool := false    -- an exception left `Ombott.__call__` (only with `catchall = False`)
   deriving Repr
 
 def closeEvents : Option Nat → List Event
@@ -625,6 +639,72 @@ def wsgi (app : App) (s : Slots) (r : Req) : Result :=
         body := items', closer := closer', fwCL := fwCL, slots := s2 }
     | none => catchAll (ev1 ++ ev2) closer' r.isHead r.path s2
   | (s2, _) => catchAll ev1 none r.isHead r.path s2
+
+/-- `wsgi` with `config.catchall = False`: the `except Exception` branch closes the iterable and
+re-raises.  (`_handle` and the first-`next()` clause of `_cast` do not look at the option: a
+failing handler or hook is still answered with a 500.)  Same text as `wsgi` with `escapeAll` for
+`catchAll`; the theorems are about `wsgi`, the configuration `Gen.wsgiCatchall` extracts. -/
+def escapeAll (ev : List Event) (closer : Option Nat) (s : Slots) : Result :=
+  { events := ev ++ closeEvents closer, body := [], closer := none, fwCL := none, slots := s,
+    escaped := true }
+
+def wsgiNoCatch (app : App) (s : Slots) (r : Req) : Result :=
+  let (s1, ev1, out) := handle app s r
+  match cast app r.fileWrapper s1 out with
+  | (s2, .body items closer fwCL) =>
+    let suppress := isBodyless s2.resp.code || r.isHead
+    let ev2 := if suppress then closeEvents closer else []
+    let items' := if suppress then [] else items
+    let closer' := if suppress then none else closer
+    match headerlist s2.resp with
+    | some hl =>
+      { events := ev1 ++ ev2 ++ [.startResponse s2.resp.line hl false],
+        body := items', closer := closer', fwCL := fwCL, slots := s2 }
+    | none => escapeAll (ev1 ++ ev2) closer' s2
+  | (s2, _) => escapeAll ev1 none s2
+
+/-- the configured application -/
+def wsgiC (catchall : Bool) (app : App) (s : Slots) (r : Req) : Result :=
+  if catchall then wsgi app s r else wsgiNoCatch app s r
+
+/-! ### the hook lists after a request
+
+`emit` iterates over a snapshot (`self._hooks[name][:]`), so the edits hooks make to the list of
+the event being emitted never change which hooks of *this* emission run (`runBefore` / `runAfter`
+do not look at `Hook.edit`); they show in the list the next emission starts from. -/
+
+/-- the hooks of an emission that are entered: up to and including the first failing one -/
+def entered : List (Nat × Hook) → List (Nat × Hook)
+  | [] => []
+  | (i, h) :: r =>
+    if effsFail h.effs then [(i, h)] else
+    match h.res with
+    | .ok => (i, h) :: entered r
+    | _ => [(i, h)]
+
+/-- `remove_hook`: the first occurrence, if any -/
+def removeFirst (j : Nat) : List Nat → List Nat
+  | [] => []
+  | x :: r => if x == j then r else x :: removeFirst j r
+
+/-- one edit on the live list (`fresh` = registration number the next added hook gets) -/
+def applyEdit (reversed : Bool) (live : List Nat × Nat) (p : Nat × Hook) : List Nat × Nat :=
+  match p.2.edit with
+  | .none => live
+  | .removeSelf => (removeFirst p.1 live.1, live.2)
+  | .removeOther j => (removeFirst j live.1, live.2)
+  | .addNew => (if reversed then live.2 :: live.1 else live.1 ++ [live.2], live.2 + 1)
+
+/-- `_hooks[name]` (registration numbers, list order) after one emission of `name` -/
+def liveAfter (name : String) (hooks : List Hook) : List Nat :=
+  let l := hookList name hooks
+  let rev := ((Gen.wsgiHookReversed.find? (·.1 == name)).map (·.2)).getD false
+  ((entered l).foldl (applyEdit rev) (l.map (·.1), hooks.length)).1
+
+/-- both hook lists after the request (nothing is emitted for an undecodable path) -/
+def hooksAfter (app : App) (r : Req) : List Nat × List Nat :=
+  if r.pathOK then (liveAfter "before_request" app.before, liveAfter "after_request" app.after)
+  else ((hookList "before_request" app.before).map (·.1), (hookList "after_request" app.after).map (·.1))
 
 /-- the server's side of the exchange: iterate, then `close()` if the object has one -/
 def serverEvents (res : Result) : List Event := closeEvents res.closer
